@@ -18,11 +18,12 @@ Definition Min3 (a b c : Z) : Z :=
 Definition Clamp (wert max min : Z) : Z := if wert >? max then max else if wert <? min then min else wert.
 Definition Sign (wert : Z) : Z := if wert <? 0 then -1 else if wert >? 0 then 1 else 0.
 
-(* Solange b ungleich 0 ist: Speichere b in t. Speichere (a modulo t) in b. Speichere t in a. *)
+(* Solange b ungleich 0 ist: Speichere b in t. Speichere (a modulo t) in b. Speichere t in a.
+   Gib den Betrag von a zurück. *)
 Fixpoint ggt_loop (fuel : nat) (a b : Z) : res Z :=
   match fuel with
   | O => NoFuel
-  | S f => if b =? 0 then Ok a else ggt_loop f b (Z.rem a b)
+  | S f => if b =? 0 then Ok (Z.abs a) else ggt_loop f b (Z.rem a b)
   end.
 Definition Groesster_Gemeinsamer_Teiler (a b : Z) : res Z := ggt_loop (Z.to_nat (Z.abs b) + 2) a b.
 
@@ -57,10 +58,10 @@ Definition Teilerzerlegung (z : Z) : list Z := teiler_loop (Z.to_nat z) z z [].
 Definition trunc_q (n d : Z) : Z := Z.quot n d * d.
 (* Gib (wert als Zahl) als Kommazahl zurück. *)
 Definition Trunc (n d : Z) : Z := trunc_q n d.
-(* Gib wert minus (wert minus wert als Zahl) zurück. *)
-Definition Floor (n d : Z) : Z := n - (n - trunc_q n d).
-(* Gib wert plus (1 minus (wert minus wert als Zahl)) zurück. *)
-Definition Ceil (n d : Z) : Z := n + (1 * d - (n - trunc_q n d)).
+(* Die Kommazahl ganz ist (wert als Zahl) als Kommazahl. Wenn ganz größer als wert ist, gib ganz minus 1 zurück. Gib ganz zurück. *)
+Definition Floor (n d : Z) : Z := let ganz := trunc_q n d in if ganz >? n then ganz - 1 * d else ganz.
+(* Die Kommazahl ganz ist (wert als Zahl) als Kommazahl. Wenn ganz kleiner als wert ist, gib ganz plus 1 zurück. Gib ganz zurück. *)
+Definition Ceil (n d : Z) : Z := let ganz := trunc_q n d in if ganz <? n then ganz + 1 * d else ganz.
 
 (* Statistik.ddp *)
 Definition MinZahl : Z := wrap64 (Z.shiftl 1 63).
@@ -77,7 +78,7 @@ Definition Kleinste_ListeZ (liste : list Z) : Z := kleinste_loop liste MaxZahl.
    The result a / len is returned as the pair (a, len). *)
 Fixpoint count_loop (cond : Z -> bool) (liste : list Z) (a : Z) : Z :=
   match liste with [] => a | z :: r => count_loop cond r (if cond z then a + 1 else a) end.
-Definition Mindestens_Liste (x : Z) (liste : list Z) : Z * Z := (count_loop (fun z => z <=? x) liste 0, len liste).
-Definition Hoechstens_Liste (x : Z) (liste : list Z) : Z * Z := (count_loop (fun z => z >=? x) liste 0, len liste).
+Definition Mindestens_Liste (x : Z) (liste : list Z) : Z * Z := (count_loop (fun z => z >=? x) liste 0, len liste).
+Definition Hoechstens_Liste (x : Z) (liste : list Z) : Z * Z := (count_loop (fun z => z <=? x) liste 0, len liste).
 Definition Zwischen_Liste (x y : Z) (liste : list Z) : Z * Z := (count_loop (fun z => (z >=? x) && (z <=? y)) liste 0, len liste).
 Definition Absolute_Haeufigkeit (liste : list Z) (x : Z) : Z := count_loop (fun z => z =? x) liste 0.
